@@ -265,6 +265,10 @@ void do_op(string op, string ctx) {
     o = ob_of("ec");
     if (o) o->run_shape(f[1]);
     break;
+  case "hbshape":  // hbshape:a,b,c   run the nesting from a heart beat (no command giver)
+    o = ob_of("ecd");
+    if (o) o->arm(f[1]);
+    break;
   case "probe":
     o = ob_of("ec");
     if (o) o->probe();
